@@ -526,6 +526,27 @@ class Evaluator:
             if n == "map":
                 f = args[0]
                 return [self.apply(f, [x], {}, fi) for x in args[1]]
+        # super().m(...) / super(C, obj).m(...)
+        if isinstance(e.func, ast.Attribute) and isinstance(e.func.value, ast.Call) and isinstance(e.func.value.func, ast.Name) \
+                and e.func.value.func.id == "super":
+            sc = e.func.value
+            if sc.args:
+                start = self.expr(sc.args[0], env, fi)
+                obj = self.expr(sc.args[1], env, fi) if len(sc.args) > 1 else None
+            else:
+                start = fi.cls
+                first = fi.node.args.args[0].arg if fi.node.args.args else None
+                obj = env.get(first)
+                p_ = fi
+                while start is None and p_ is not None:
+                    start = p_.cls
+                    p_ = p_.parent
+            if not isinstance(start, ClassInfo) or not isinstance(obj, Obj):
+                raise Unsupported("super() outside a method of a modelled object")
+            m = self.prog.lookup_method(obj.cls, e.func.attr, after=start) if start in self.prog.mro(obj.cls) else None
+            if m is None:
+                raise Unsupported(f"super().{e.func.attr} not found")
+            return self.call(m, args, kwargs, self_obj=obj)
         f = self.expr(e.func, env, fi)
         return self.apply(f, args, kwargs, fi)
 
@@ -535,6 +556,9 @@ class Evaluator:
         if isinstance(f, FuncInfo):
             return self.call(f, args, kwargs)
         if isinstance(f, tuple) and f and f[0] == "bound":
+            if f[2] is None and f[1].cls is not None and not f[1].is_static and not f[1].is_classmethod and args:
+                # Class.method(obj, ...): explicit receiver
+                return self.call(f[1], list(args[1:]), kwargs, self_obj=args[0])
             return self.call(f[1], args, kwargs, self_obj=f[2])
         if isinstance(f, ClassInfo):
             init = self.prog.lookup_method(f, "__init__")
